@@ -294,6 +294,8 @@ class Prop:
         start node / title; 1 = connector under a title line); None = not specified."""
         if segs == "any":
             return None
+        if isinstance(segs, list) and len(segs) not in (4, 6):
+            return f"{what}: the style table entry has {len(segs)} segments (4 or 6 are decodable)"
         if segs is None:
             # invalid style name: always ValueError; malformed tuple: ValueError as soon as one node is rendered
             if ob == [-1, 3]:
